@@ -63,6 +63,8 @@ static void build_menus() {
   CM.push_back(ge({1, 0, 0, -1}, 2));      // 21  A >= D - 2        (D big: A is "M - something")
   CM.push_back(ge({-1, -2, 2, 0}, 1));     // 22  A + 2B <= 2C + 1
   CM.push_back(ge({0, 1, 0, 0}, 0));       // 23  B >= 0            (redundant: implicit non-negativity)
+  CM.push_back(ge({2, -1, -2, 0}, -2));    // 24  2A - B >= 2C + 2  (pivot on a coefficient 2 with an integral solution: the tableau keeps denominator 2)
+  CM.push_back(ge({0, 1, -1, 0}, 3));      // 25  B >= C - 3        (mixes a variable that is still basic with a parameter)
   PAIRS.push_back(std::make_pair(3, 4));     // B <= 2A <= B + 1
   PAIRS.push_back(std::make_pair(11, 12));   // A = C as two rows
   PAIRS.push_back(std::make_pair(13, 14));
@@ -502,15 +504,17 @@ static int max_conditions_on_path(const PPL::PIP_Tree_Node* n) {
 struct Reporter {
   std::string input; bool live;
   std::string override_none, override_all;     // state-based triggers of the incremental exploration
-  Reporter() : live(true) {}
+  bool first_solve;                             // the object had no solution tree before this solve (symptom triggers of the first-solve defects apply)
+  Reporter() : live(true), first_solve(true) {}
   void viol(const std::string& site, const std::string& clause, const std::string& trig0, const std::string& obs, const std::string& exp, const std::string& detail = "") const {
     if (!live) return;
     std::string trig = !override_all.empty() ? override_all : (trig0 == "none" && !override_none.empty()) ? override_none : trig0;
     count(CNT_VIOL);
     // one finding group for the incremental-update family: the sub-check that failed goes to the detail
     std::string st = site, cl = clause, det = detail;
-    if (trig == "resolve_over_solution_tree_not_in_initial_basis") {
-      size_t q = st.find("(incremental)"); if (q != std::string::npos) st = st.substr(0, q);
+    { size_t q = st.find("(incremental)"); if (q != std::string::npos) { st = st.substr(0, q); det = "INCREMENTAL ONLY: a fresh problem built from the same final data is right. " + det; } }
+    if (trig == "resolve_of_tree_with_decision_nodes" ||
+        trig == "pending_row_parameter_column_overwritten_after_nonbasic_variable" || trig == "dimensions_added_to_tree_with_artificial_parameters") {
       cl = "incremental:wrong-answer"; det = "failed check: " + clause + ". " + detail;
     }
     if (!violcap().admit(st + "|" + cl + "|" + trig)) return;
@@ -596,9 +600,9 @@ static bool judge(const PIP& p, int status, const Data& d, const Reporter& rp, c
       if (status == 1) dt += "tree: " + tree_text(p);
       int b0 = 0; while (clause[b0].empty()) ++b0;
       if (trig[b0] == "none" && big_with_non_unit_coefficient(d)) trig[b0] = "big_parameter_in_row_with_non_unit_variable_coefficient";
-      if (status == 1 && trig[b0] == "none" && clause[b0].compare(0, 5, "tree:") == 0 && tree_has_dead_condition(root, d)) trig[b0] = "tree_node_condition_never_true_when_reached";
-      if (status == 1 && trig[b0] == "none" && clause[b0].compare(0, 5, "tree:") == 0) { RefGuard g; if (false_child_only_where_unfeasible(root, d)) trig[b0] = "false_child_entered_only_where_unfeasible"; }
-      if (status == 1 && trig[b0] == "none" && clause[b0].compare(0, 5, "tree:") == 0 && clause[b0] != "tree:malformed" && max_conditions_on_path(root) >= 1) trig[b0] = "tree_with_conditions";
+      if (rp.first_solve && status == 1 && trig[b0] == "none" && clause[b0].compare(0, 5, "tree:") == 0 && tree_has_dead_condition(root, d)) trig[b0] = "tree_node_condition_never_true_when_reached";
+      if (rp.first_solve && status == 1 && trig[b0] == "none" && clause[b0].compare(0, 5, "tree:") == 0) { RefGuard g; if (false_child_only_where_unfeasible(root, d)) trig[b0] = "false_child_entered_only_where_unfeasible"; }
+      if (rp.first_solve && status == 1 && trig[b0] == "none" && clause[b0].compare(0, 5, "tree:") == 0 && clause[b0] != "tree:malformed" && max_conditions_on_path(root) >= 1) trig[b0] = "tree_with_conditions";
       rp.viol(site, clause[b0], trig[b0], obs[b0], exp[b0], dt);
       ok = false;
       break;          // one finding per judged problem: the first valuation that fails
@@ -736,10 +740,54 @@ static bool nontrivial_tree(const PIP& p) {
   if (n == 0) return false;
   if (n->as_decision() != 0) return true;
   if (n->art_parameter_count() != 0 || n->constraints().begin() != n->constraints().end()) return true;
-  // a bare solution node: has it left the initial basis (some variable defined by a tableau row)?
   const PPL::PIP_Solution_Node* sn = n->as_solution();
   for (size_t i = 0; sn != 0 && i < sn->tableau.s.num_columns() && i < sn->basis.size(); ++i) if (!sn->basis[i]) return true;
   return false;
+}
+// Precise state predicates of the two open incremental defects (read-only inspection of the tree about to be updated).
+//  (T1) PIP_Solution_Node::update_tableau builds the row of a pending constraint dimension by dimension; for a non-basic
+//       variable it ADDS coeff * (that variable's tableau row) to the new row, but for a parameter it SETS the column
+//       (p_row.insert(p_index, coeff * denom)).  A parameter that comes after such a variable in the constraint, and
+//       whose column the variable's row had filled, loses that contribution.
+//  (T2) Dimensions are added to a problem whose tree declares artificial parameters: the Constraint_Systems stored in
+//       the nodes keep the old dimension numbers of the artificial parameters (no renumbering takes place).
+static void collect_leaves(const PPL::PIP_Tree_Node* n, std::vector<const PPL::PIP_Solution_Node*>& out, bool& any_art) {
+  if (n == 0) return;
+  if (n->art_parameter_count() != 0) any_art = true;
+  if (const PPL::PIP_Decision_Node* dn = n->as_decision()) { collect_leaves(dn->child_node(true), out, any_art); collect_leaves(dn->child_node(false), out, any_art); return; }
+  if (const PPL::PIP_Solution_Node* sn = n->as_solution()) out.push_back(sn);
+}
+static std::string incremental_trigger(const PIP& p) {
+  if (p.current_solution == 0) return "";
+  std::vector<const PPL::PIP_Solution_Node*> leaves; bool any_art = false;
+  collect_leaves(p.current_solution, leaves, any_art);
+  if (p.external_space_dim > p.internal_space_dim) return any_art ? "dimensions_added_to_tree_with_artificial_parameters" : "";
+  const PPL::Variables_Set& ps = p.parameters;
+  for (size_t ci = p.first_pending_constraint; ci < p.input_cs.size(); ++ci) {
+    const PPL::Constraint& c = p.input_cs[ci];
+    for (size_t l = 0; l < leaves.size(); ++l) {
+      const PPL::PIP_Solution_Node& sn = *leaves[l];
+      // columns of the parameter matrix already filled by non-basic variables met so far
+      std::set<PPL::dimension_type> filled;
+      PPL::dimension_type v_index = 0, p_index = 1;
+      for (PPL::dimension_type dim = 0; dim < c.space_dimension(); ++dim) {
+        bool is_param = ps.count(dim) == 1;
+        const PPL::Coefficient& co = c.coefficient(PPL::Variable(dim));
+        if (is_param) { if (co != 0 && filled.count(p_index)) return "pending_row_parameter_column_overwritten_after_nonbasic_variable"; ++p_index; }
+        else {
+          if (co != 0 && v_index < sn.basis.size() && !sn.basis[v_index] && sn.mapping[v_index] < sn.tableau.t.num_rows()) {
+            const PPL::PIP_Tree_Node::Row& tr = sn.tableau.t[sn.mapping[v_index]];
+            for (PPL::PIP_Tree_Node::Row::const_iterator j = tr.begin(); j != tr.end(); ++j) if (j.index() > 0 && *j != 0) filled.insert(j.index());
+          }
+          ++v_index;
+        }
+      }
+    }
+  }
+  //  (T3) none of the above, but the tree to be updated has decision nodes: the pending rows are pushed through
+  //       PIP_Decision_Node::update_tableau / solve into sub-trees solved under different contexts (cause not isolated).
+  if (p.current_solution->as_decision() != 0) return "resolve_of_tree_with_decision_nodes";
+  return "";
 }
 static void run_incr_item(long long item, long long sub_start) {
   const Item& it = ITEMS[item];
@@ -777,7 +825,8 @@ static void run_incr_item(long long item, long long sub_start) {
           if (pool().worker_id >= 0) {
             CrashInfo& ci = CRASH[pool().worker_id]; std::vector<int> h = history_ops(src.rec); h.push_back(opi);
             ci.mode = 1; ci.init = it.init; ci.n = (int)std::min<size_t>(h.size(), 12); for (int q = 0; q < ci.n; ++q) ci.ops[q] = h[q];
-            ci.trig = !solve_like(o.k) ? 0 : nontrivial_tree(*src.p) ? 2 : src.d.piv == 1 ? 1 : 0;
+            { std::string t_ = solve_like(o.k) ? incremental_trigger(*src.p) : std::string();
+              ci.trig = t_.empty() ? (solve_like(o.k) && src.d.piv == 1 ? 1 : 0) : t_[0] == 'p' ? 2 : t_[0] == 'd' ? 3 : 4; }
           }
           pool().step(my);
         }
@@ -820,12 +869,14 @@ static void run_incr_item(long long item, long long sub_start) {
           if (src.dirty) {     // otherwise this very verdict was judged before
             rp.input = input_json(it.init, src.rec, opi, d1);
             // label: is a fresh problem from the same data right?
-            Reporter probe; probe.live = false;
+            rp.first_solve = src.p->current_solution == 0;
+            Reporter probe; probe.live = false; probe.first_solve = rp.first_solve;
             bool inc_ok = judge(*c, out.status, d1, probe, op_site(o.k));
             if (!inc_ok) {
               bool fr = fresh_is_right(d1);
               Reporter r2 = rp;
-              if (nontrivial_tree(*src.p)) { if (fr) r2.override_all = "resolve_over_solution_tree_not_in_initial_basis"; else r2.override_none = "resolve_over_solution_tree_not_in_initial_basis"; }
+              { std::string it_trig = incremental_trigger(*src.p);
+                if (!it_trig.empty()) { if (fr) r2.override_all = it_trig; else r2.override_none = it_trig; } }
               if (fr) r2.input = input_json(it.init, src.rec, opi, d1).substr(0, input_json(it.init, src.rec, opi, d1).size() - 1) + ",\"fresh_problem_from_same_data\":\"right\"}";
               // re-judge with reporting; the site tells incremental-only defects apart
               // "(incremental)": a fresh problem is right AND this object had been solved before
@@ -1013,7 +1064,8 @@ int main(int argc, char** argv) {
     // initial problems for the histories: every plain layout with no row, plus a few one-row problems
     for (size_t l = 0; l < n_plain; ++l) { Init in; in.d.dim = LAYOUTS[l].dim; in.d.params = LAYOUTS[l].params; INITS.push_back(in); }
     struct S { int dim; unsigned params; std::vector<int> rows; };
-    std::vector<S> seeds = { {2, 2, {3}}, {2, 2, {0}}, {3, 4, {11, 13}}, {2, 1, {1}}, {4, 12, {13, 14}}, {3, 6, {15}}, {2, 2, {5}}, {1, 0, {7}} };
+    std::vector<S> seeds = { {2, 2, {3}}, {2, 2, {0}}, {3, 4, {11, 13}}, {2, 1, {1}}, {4, 12, {13, 14}}, {3, 6, {15}}, {2, 2, {5}}, {1, 0, {7}},
+                             {3, 2, {3}}, {3, 4, {13}}, {4, 8, {14}}, {3, 4, {24}}, {4, 12, {24}} };     // a pivot on a coefficient 2 (tableau denominator 2) with a spare variable
     for (size_t i = 0; i < seeds.size(); ++i) { Init in; in.d.dim = seeds[i].dim; in.d.params = seeds[i].params; in.d.rows = seeds[i].rows; INITS.push_back(in); }
     { Init in; in.d.dim = 0; INITS.push_back(in); }
     int only_init = atoi(ARGS.opt("--only-init", "-1").c_str());
@@ -1039,8 +1091,8 @@ int main(int argc, char** argv) {
     } else {
       std::vector<std::string> names, idx;
       for (int q = 0; q < ci.n; ++q) { names.push_back(jstr(op_name(OPS[ci.ops[q]]))); idx.push_back(std::to_string(ci.ops[q])); }
-      std::string trig = ci.trig == 2 ? "resolve_over_solution_tree_not_in_initial_basis" : ci.trig == 1 ? "pivot_row_strategy_max_column" : "none";
-      if (ci.trig == 2) clause = "incremental:wrong-answer";
+      std::string trig = ci.trig == 2 ? "pending_row_parameter_column_overwritten_after_nonbasic_variable" : ci.trig == 3 ? "dimensions_added_to_tree_with_artificial_parameters" : ci.trig == 4 ? "resolve_of_tree_with_decision_nodes" : ci.trig == 1 ? "pivot_row_strategy_max_column" : "none";
+      if (ci.trig >= 2) clause = "incremental:wrong-answer";
       report_violation("PIP_Problem::solve", clause, trig, J().str("mode", "incremental").str("failure", sig == SIGALRM ? "hang" : signame(sig)).num("init", ci.init).raw("init_problem", data_json(INITS[ci.init].d)).arr("history", names).arr("ops", idx).num("item", item).num("sub", sub).done(), signame(sig), "an answer");
     }
   };
